@@ -7,8 +7,10 @@ PROPS="$@"
 [ -n "$PROPS" ] || PROPS=$(ls mutants | sort)
 fail=0
 for P in $PROPS; do
-  out=$(./run.sh $P quick 2>&1); rc=$?
-  if [ $rc -ne 0 ]; then echo "BASE $P: exit $rc (expected 0)"; fail=1; fi
+  if [ -z "${VERIF_SELFTEST:-}" ]; then
+    out=$(./run.sh $P quick 2>&1); rc=$?
+    if [ $rc -ne 0 ]; then echo "BASE $P: exit $rc (expected 0)"; fail=1; fi
+  fi
   for m in mutants/$P/*.patch seeded/$P-*/patch.diff; do
     [ -f "$m" ] || continue
     out=$(tools/mut.sh "$m" $P quick 2>&1); rc=$?
